@@ -1378,6 +1378,8 @@ def c17_fn_search(rp, seed):
         r2 = dict(rp, x=enc(x), t=enc(t))
         try:
             bad, msg = c17_fn(r2)
+        except ArithmeticError as e:
+            return r2, f"{rp['fn']}({x!r}, {t!r}) raised {type(e).__name__}: {e}"
         except Exception as e:  # noqa: BLE001
             continue
         if bad:
@@ -1684,3 +1686,27 @@ def c08_predict(rp):
         if not _all_finite(out):
             return True, f"{name}.{op} -> {out}"
     return False, "finite"
+
+
+@checker("c08_gauss")
+def c08_gauss(rp):
+    W = wl_common()
+    x, t = float(num(rp["x"])), float(num(rp["t"]))
+    try:
+        r = getattr(W, rp["fn"])(x, t)
+    except Exception as e:  # noqa: BLE001
+        return True, f"{rp['fn']}({x!r}, {t!r}) raised {type(e).__name__}: {e}"
+    return not math.isfinite(r), f"{rp['fn']}({x!r}, {t!r}) = {r!r}"
+
+
+@searcher("c08_gauss")
+def c08_gauss_search(rp, seed):
+    rnd = random.Random(seed)
+    for k in range(6000):
+        x = rnd.uniform(-60, 60) if k % 2 else rnd.choice([-1, 1]) * rnd.choice([8.12, 8.13, 37.5, 38.4, 38.6, 39.0, 40.0, 45.0]) + rnd.uniform(-0.05, 0.05)
+        t = 10 ** rnd.uniform(-8, -2)
+        r2 = dict(rp, x=enc(x), t=enc(t))
+        bad, msg = c08_gauss(r2)
+        if bad:
+            return r2, msg
+    return None
